@@ -22,6 +22,7 @@ pub fn def() -> CheckDef {
         assumptions: &["two handles on one stream, and using a handle after its stream was removed/overwritten, are outside the statement and never generated", "reference model as C01"],
         cpu_limit_s: 30,
         fault_kinds: "none (interleaving of handle clients with mutators)",
+        count_subruns: false,
     }
 }
 
